@@ -71,6 +71,31 @@ func plainRewrite(in []byte, objStreams bool) ([]byte, error) {
 	return out.Bytes(), err
 }
 
+// countLazy: how many object-stream members of the input are still undecoded (LazyObjectStreamObject)
+// after the read/validate/optimize pass that api.Encrypt runs.  Only such documents can hit the
+// writeLazyObjectStreamObject hole.
+func countLazy(in []byte) int {
+	n := 0
+	c := model.NewDefaultConfiguration()
+	c.Cmd = model.ENCRYPT
+	c.OwnerPW = "baseline"
+	_ = guard(func() error {
+		ctx, e := api.ReadValidateAndOptimize(bytes.NewReader(in), c)
+		if e != nil {
+			return e
+		}
+		for _, e := range ctx.XRefTable.Table {
+			if e != nil && !e.Free {
+				if _, ok := e.Object.(types.LazyObjectStreamObject); ok {
+					n++
+				}
+			}
+		}
+		return nil
+	})
+	return n
+}
+
 func encryptBytesDoc(in []byte, c *model.Configuration) ([]byte, error) {
 	var out bytes.Buffer
 	err := guard(func() error { return api.Encrypt(bytes.NewReader(in), &out, c) })
